@@ -47,6 +47,54 @@ Definition run4 (v : val) : val :=
   | Some evs => let '(ls, tail) := spec_lines (file_after append_open_append evs) in
                 VL [VZ 1; VZs (map (fun l : bytes => zlen l) ls); VZ (zlen tail)]
   end.
-Definition run (v : val) : val :=
+Definition run_old (v : val) : val :=
   let mode := vz (vnth 0 v) in
   if mode =? 3 then run3 v else if mode =? 4 then run4 v else run_trace v.
+
+(* ---- the content of the audit record (C06/Record.v)
+   mode 5 (a history of requests in one server process): [5 [req ...]] with
+     req = [key sigtype hash filename remote user no_ts section leaf pgp needs_x509 needs_pgp amqp_conf file_conf host kind now size]
+     user = [0 name dn] (certificate) ; leaf = [] or [[raw subject issuer spki tbs]] ; pgp = [] or [[fingerprint keyid name]]
+     kind: 0 bare blob, 1 binary patch, 2 PKCS#7
+   output per request: [answered file_records amqp_records] ; a record is the list of its present attributes [key term]
+   terms: [0 bytes] string, [1 z] number, [2 f [args]] value of function f, [3 t] time, [4 [..]] tuple, [5 ty [[k v]..]] struct,
+          [6] nil, [7 b] boolean, [9] something the model could not evaluate *)
+From Relic Require Import Generated.C06rec_gen C06.Record.
+Fixpoint term_of (fuel : nat) (v : value) : val :=
+  match fuel with
+  | O => VL [VZ 9]
+  | S f =>
+      match v with
+      | VStr b => VL [VZ 0; VB b]
+      | VInt z => VL [VZ 1; VZ z]
+      | VSym g args => VL [VZ 2; VB g; VL (map (term_of f) args)]
+      | VTime t => VL [VZ 3; VZ t]
+      | VTuple l => VL [VZ 4; VL (map (term_of f) l)]
+      | VStruct ty fs => VL [VZ 5; VB ty; VL (map (fun kv : bytes * value => VL [VB (fst kv); term_of f (snd kv)]) fs)]
+      | VNil => VL [VZ 6]
+      | VBool b => VL [VZ 7; of_bool b]
+      | _ => VL [VZ 9]
+      end
+  end.
+Definition record_val (p : value * bool) : val :=
+  match fst p with
+  | VAttrs sl => VL (flat_map (fun s : bytes * (bool * value) => if fst (snd s) then [VL [VB (fst s); term_of 8 (snd (snd s))]] else []) sl)
+  | _ => VL [VL [VB []; VL [VZ 9]]]
+  end.
+Definition req_of (v : val) : request :=
+  let b n := vb (vnth n v) in
+  let z n := vz (vnth n v) in
+  let t n := vbool (vnth n v) in
+  let u := vnth 5 v in
+  let leaf := match vl (vnth 8 v) with c :: _ => Some (mkCert (vb (vnth 0 c)) (vb (vnth 1 c)) (vb (vnth 2 c)) (vb (vnth 3 c)) (vb (vnth 4 c))) | [] => None end in
+  let pgp := match vl (vnth 9 v) with e :: _ => Some (mkEntity (vb (vnth 0 e)) (vb (vnth 1 e)) (vb (vnth 2 e))) | [] => None end in
+  let kind := if z 15%nat =? 1 then KBinPatch else if z 15%nat =? 2 then KPkcs7 None else KPlain in
+  mkRequest (b 0%nat) (b 1%nat) (z 2%nat) (b 3%nat) (b 4%nat) (UCert (vb (vnth 1 u)) (vb (vnth 2 u))) (t 6%nat)
+        true (b 7%nat) leaf pgp false [] (t 10%nat) (t 11%nat) false false false (t 12%nat) (t 13%nat) [] [] false
+        (z 16%nat) (b 14%nat) true true kind [] (z 17%nat) true true false false.
+Definition run5 (v : val) : val :=
+  VL (map (fun o : outcome => VL [of_bool (match responded o with [] => false | _ => true end);
+                                  VL (map record_val (file_records o)); VL (map record_val (amqp_records o));
+                                  VB (o_why o)])
+          (handle_all rec_funcs [] (map req_of (vl (vnth 1 v))))).
+Definition run (v : val) : val := if vz (vnth 0 v) =? 5 then run5 v else run_old v.
